@@ -378,7 +378,9 @@ def gen_rf_case(rng):
     elif kind == 't':
         cont = {'t': elems}
     elif kind == 'd':
-        cont = {'d': [[f'k{i}', e] for i, e in enumerate(elems)]}
+        # keys are string nodes too: mixed text over a key that holds a further expression
+        keyf = rng.choice(['k%d', 'k%d', 'k%d-{b}', '{a}-k%d', 'k%d {{lit}} {b}'])
+        cont = {'d': [[keyf % i, e] for i, e in enumerate(elems)]}
     else:
         cont = {'l': [{'d': [['in', elems[0]]]}, {'t': elems}]}
     ctx.append(['cont', cont])
